@@ -219,6 +219,21 @@ def w_program(case):
                          'derivatives of the outputs w.r.t. the (free) parameters '
                          'in published order (%s, fixed=%s)' % (lab, fixed),
                          'expected': eS, 'observed': S, 'behaviour': 'sens'})
+        if fixed and len(free_idx):
+            # whole-number free values handed over as Python ints (the fixed values
+            # are not whole numbers)
+            ones = [1] * len(free_idx)
+            y_i = model.simulate(ones, list(times))
+            y_i = np.asarray(y_i[0] if isinstance(y_i, tuple) else y_i, dtype=float)
+            e_i = np.real(closed(np.ones(len(free_idx)), free_idx))
+            ntr += 1
+            if y_i.shape != e_i.shape or not tol.allclose(y_i, e_i, tol.ODE_REL,
+                                                         tol.ODE_ABS):
+                viol.append({'sub': 'int_free', 'message': 'reduced model simulated '
+                             'at integer-typed free values is not the solution at '
+                             'the substituted vector (%s, fixed=%s)' % (lab, fixed),
+                             'expected': e_i, 'observed': y_i,
+                             'behaviour': 'int_free'})
         outcome.append(tol.rnd(S, 5))
         model.enable_sensitivities(False)
     # the list given to set_outputs is the caller's: reversing / extending it
@@ -462,6 +477,26 @@ def w_program(case):
                                  'was set (%s)' % lab, 'expected': ey,
                                  'observed': y, 'behaviour': 'dosed_values'})
                 continue
+            if variant == 'copy_regimen':
+                # a copy gets another regimen: the original keeps applying its own
+                duration = 0.4
+                md.set_dosing_regimen(dose, start=start, duration=duration)
+                other = md.copy()
+                other.set_dosing_regimen(7.0, start=0.1, duration=0.2)
+                other.simulate(list(pv), list(times))
+                y = np.asarray(md.simulate(list(pv), list(times)), dtype=float)
+                ntr += 4
+                r_ = rc.solve(desc, dict(zip(orig, pv)), times, dosed=comp,
+                              events=[(start, duration, dose / duration)])
+                ey = np.real(np.array([r_[o] for o in sel]))
+                if y.shape != ey.shape or not tol.allclose(
+                        y, ey, tol.ODE_REL, tol.ODE_ABS):
+                    viol.append({'sub': 'dosed_values', 'message': 'after a copy '
+                                 'was given another regimen the original does not '
+                                 'solve its own dosed initial-value problem (%s)'
+                                 % lab, 'expected': ey, 'observed': y,
+                                 'behaviour': 'dosed_values'})
+                continue
             if variant in ('plain_numbers', 'plain_protocol'):
                 import myokit
                 duration = 0.4
@@ -634,7 +669,18 @@ LIB_OUTPUTS = {
 def w_library(case):
     kind = case['kind']
     viol = []
-    m = getattr(chi.library.ModelLibrary(), kind)()
+    # (ONE library object: the model examined is requested after an earlier one of
+    # the same kind was requested and configured by the caller)
+    lib = chi.library.ModelLibrary()
+    earlier = getattr(lib, kind)()
+    if hasattr(earlier, 'set_administration') and any(
+            n_.startswith('central.') for n_ in earlier.parameters()):
+        earlier.set_administration('central', direct=False)
+        earlier.set_dosing_regimen(3.0, start=0.1, duration=0.2)
+    earlier.set_outputs(earlier.outputs()[:1])
+    earlier.set_parameter_names({earlier.parameters()[-1]: 'renamed earlier'})
+    earlier.enable_sensitivities(True)
+    m = getattr(lib, kind)()
     names = m.parameters()
     if names != LIB_NAMES[kind]:
         viol.append({'sub': 'names', 'message': 'library model %s: parameter names '
@@ -708,6 +754,7 @@ def build(tier, seed):
                       'dosed': sorted(c['id'] for c in desc['comps'])[
                           di % len(desc['comps'])],
                       'dose_variants': ['plain_indirect', 'sens_before_route',
+                                        'copy_regimen',
                                         'plain_numbers',
                                         'plain_protocol',
                                         'sens_twice', 'fix_after_sens', 'subset',
